@@ -386,6 +386,15 @@ for pid in ('C15', 'C16', 'C03'):
     if 'thorough' in PROPS[pid]['mir']:
         PROPS[pid]['mir']['thorough'].append(mrun(HEAP, nmax=3))
     PROPS[pid]['bounds'] += ' M (heap.*): try_from_vec / try_from_boxed_slice for ALL N, source lengths L and capacities CAP >= L: Ok iff L == N, the same block re-boxed under the layout of N elements (a buffer with spare capacity is shrunk first; a pointer taken before the shrink is stale), a refused source dropped once and freed.'
+# eighth round: provided Iterator methods the crate overrides for GenericArrayIter beyond the ones with scenarios of their own (find, position,
+# try_fold, advance_by, ...): found by name in the MIR, run generically (closures / destructors may panic, then the owner drops the iterator)
+for pid in ('C05', 'C06', 'C04', 'C03'):
+    PROPS[pid].setdefault('mir', {'quick': []})
+    for tier in ('quick', 'thorough'):
+        if tier in PROPS[pid]['mir']:
+            PROPS[pid]['mir'][tier].append(mrun(['iter.overrides'], nmax=3 if tier == 'quick' else 6))
+    PROPS[pid]['bounds'] += ' M (iter.overrides): every further method of the Iterator / DoubleEndedIterator / ExactSizeIterator impls of GenericArrayIter found in the MIR (overrides of provided methods), N <= 3 (thorough 6), arbitrary position, closures and destructors may panic: ownership obligations and the iterator invariant.'
+
 # eighth round: "the boxed constructors build arrays far larger than the thread's stack" - frames on the path of a boxed constructor
 STACK = ['stack.box_generate', 'stack.try_boxed_from_iter', 'stack.box_from_iter', 'stack.box.map']
 PROPS['C15']['mir']['quick'].append(mrun(STACK, nmax=3))
